@@ -637,6 +637,9 @@ func (ex *Exec) runFrame(fr *Frame, args []Val, st0 *State, reach0 *smt.Term) ([
 					vs = append(vs, ex.val(fr, r))
 				}
 				rets = append(rets, retInfo{cur, vs, st})
+				if fr.top && fr.fc != nil {
+					ex.exitAsserts(fr, b, st, cur, x)
+				}
 			case *ssa.Panic:
 				if !ex.panicAllowed(fr, st, cur) {
 					ex.oblige("panic", "explicit:"+ex.anchor(fr, x, x.Pos()), cur, c.False(), x.Pos(), fr.prefix)
@@ -671,6 +674,25 @@ func (ex *Exec) runFrame(fr *Frame, args []Val, st0 *State, reach0 *smt.Term) ([
 		merged[i] = acc
 	}
 	return merged, out, c.Or(conds...)
+}
+
+// exitAsserts checks "exit assert" clauses (over locals) at one return site.
+func (ex *Exec) exitAsserts(fr *Frame, b *ssa.BasicBlock, st *State, cur *smt.Term, ret *ssa.Return) {
+	n := 0
+	for _, cl := range fr.fc.Clauses {
+		if cl.Kind != "exit" {
+			continue
+		}
+		n++
+		env := ex.envFor(fr, st, fr.entryState(ex), nil)
+		env.atBlock = b
+		env.atEnd = true
+		label := cl.Label
+		if label == "" {
+			label = fmt.Sprintf("exit%d", n)
+		}
+		ex.obligeAlways("exit", label, cur, ex.evalBool(env, cl.E, cl), ret.Pos())
+	}
 }
 
 func (ex *Exec) panicAllowed(fr *Frame, st *State, cur *smt.Term) bool {
